@@ -275,8 +275,10 @@ class Logistic(BaseDatafit):
 
     def raw_hessian(self, y, Xw):
         """Compute Hessian of datafit w.r.t ``Xw``."""
-        exp_minus_yXw = np.exp(-y * Xw)
-        return exp_minus_yXw / (1 + exp_minus_yXw) ** 2 / len(y)
+        # sigmoid(z) * sigmoid(-z) is even in z: use exp(-|z|) <= 1, exp(-z) overflows
+        # to inf for large negative margins and inf / inf is nan
+        exp_minus_abs_yXw = np.exp(-np.abs(y * Xw))
+        return exp_minus_abs_yXw / (1 + exp_minus_abs_yXw) ** 2 / len(y)
 
     def get_lipschitz(self, X, y):
         return (X ** 2).sum(axis=0) / (4 * len(y))
